@@ -136,6 +136,78 @@ theorem scan1_mismatch_of_disjoint {theirs all l : Table D} (h : ∀ w ∈ keys 
     simp only [scan1, hnone]
     exact ih (fun w hw => h w (by simp only [keys, List.map_cons, List.mem_cons]; exact Or.inr hw))
 
+theorem scan1_refused {theirs all l : Table D} {v : Nat} (h : scan1 theirs all l = .refused v) :
+    ∃ d d', (v, d) ∈ l ∧ (v, d') ∈ theirs ∧ d ≠ d' ∧
+      ∃ pre post, l = pre ++ (v, d) :: post ∧ ∀ w ∈ keys pre, w ∉ keys theirs := by
+  induction l with
+  | nil => simp [scan1] at h
+  | cons a rest ih =>
+    obtain ⟨av, ad⟩ := a
+    simp only [scan1] at h
+    cases hf : theirs.find? (fun c => c.1 = av) with
+    | some c =>
+      simp only [hf] at h
+      split at h
+      · cases h
+      · rename_i hne
+        injection h with h1
+        subst h1
+        obtain ⟨hc, hk⟩ := find_key_some hf
+        refine ⟨ad, c.2, List.mem_cons_self .., ?_, hne, [], rest, rfl, by simp [keys]⟩
+        have : c = (av, c.2) := by cases c; simp_all
+        exact this ▸ hc
+    | none =>
+      simp only [hf] at h
+      obtain ⟨d, d', h1, h2, hne, pre, post, h3, h4⟩ := ih h
+      refine ⟨d, d', List.mem_cons_of_mem _ h1, h2, hne, (av, ad) :: pre, post, by simp [h3], ?_⟩
+      intro w hw
+      simp only [keys, List.map_cons, List.mem_cons] at hw
+      cases hw with
+      | inl hw => exact hw ▸ find_key_none hf
+      | inr hw => exact h4 w hw
+
+theorem scan1_mismatch {theirs all l : Table D} {vs : List Nat} (h : scan1 theirs all l = .versionMismatch vs) :
+    vs = keys all ∧ ∀ w ∈ keys l, w ∉ keys theirs := by
+  induction l with
+  | nil => simp only [scan1, Outcome.versionMismatch.injEq] at h; exact ⟨h.symm, by simp [keys]⟩
+  | cons a rest ih =>
+    obtain ⟨av, ad⟩ := a
+    simp only [scan1] at h
+    cases hf : theirs.find? (fun c => c.1 = av) with
+    | some c => simp only [hf] at h; split at h <;> cases h
+    | none =>
+      simp only [hf] at h
+      obtain ⟨h1, h2⟩ := ih h
+      refine ⟨h1, ?_⟩
+      intro w hw
+      simp only [keys, List.map_cons, List.mem_cons] at hw
+      cases hw with
+      | inl hw => exact hw ▸ find_key_none hf
+      | inr hw => exact h2 w hw
+
+/-- a `Refused` answer of stack 1 is about the highest common version, whose data differ -/
+theorem refused_sound1 (ours theirs : Table D) (v : Nat) (h : negotiate1 ours theirs = .refused v) :
+    (∃ d d', (v, d) ∈ ours ∧ (v, d') ∈ theirs ∧ d ≠ d') ∧ ∀ w, w ∈ keys ours → w ∈ keys theirs → w ≤ v := by
+  obtain ⟨d, d', h1, h2, hne, pre, post, h3, h4⟩ := scan1_refused h
+  refine ⟨⟨d, d', (sortDesc_perm ours).mem_iff.mp h1, h2, hne⟩, ?_⟩
+  intro w hwo hwt
+  have hw : w ∈ keys (sortDesc ours) := ((sortDesc_perm ours).map _).mem_iff.mpr hwo
+  have hs := sortDesc_sorted ours
+  rw [h3] at hw hs
+  simp only [keys, List.map_append, List.map_cons, List.mem_append, List.mem_cons] at hw
+  rcases hw with hw | hw | hw
+  · exact absurd hwt (h4 w hw)
+  · omega
+  · obtain ⟨x, hx, rfl⟩ := List.mem_map.mp hw
+    have := (List.pairwise_append.mp hs).2.1
+    exact (List.pairwise_cons.mp this).1 x hx
+
+/-- stack 1 answers with a version mismatch only when the version sets are disjoint -/
+theorem mismatch_only_if_disjoint1 (ours theirs : Table D) (vs : List Nat)
+    (h : negotiate1 ours theirs = .versionMismatch vs) : ∀ w ∈ keys ours, w ∉ keys theirs := by
+  intro w hw
+  exact (scan1_mismatch h).2 w (((sortDesc_perm ours).map _).mem_iff.mpr hw)
+
 /-- **accept_sound (stack 1)**: an accepted version is offered by both sides with *equal* version data
     (hence equal network magic), and no higher version is offered by both. -/
 theorem accept_sound1 (ours theirs : Table D) (v : Nat) (d : D) (h : negotiate1 ours theirs = .accept v d) :
@@ -296,6 +368,53 @@ theorem accept_sound2 (magic : D → Nat) (ours proposed : Table D) (v : Nat) (d
         intro w hwo hwp
         obtain ⟨p, hp, rfl⟩ := List.mem_map.mp hwp
         exact hmax p (mem_common.mpr ⟨hp, hwo⟩)
+
+omit [DecidableEq D] in
+/-- a `Refused` answer of stack 2 is about the highest common version, whose magics differ -/
+theorem refused_sound2 (magic : D → Nat) (ours proposed : Table D) (v : Nat)
+    (h : negotiate2 magic ours proposed = .refused v) :
+    (∃ d pd, (v, d) ∈ ours ∧ (v, pd) ∈ proposed ∧ magic pd ≠ magic d) ∧
+      ∀ w, w ∈ keys ours → w ∈ keys proposed → w ≤ v := by
+  unfold negotiate2 at h
+  cases hm : maxByKey (common ours proposed) with
+  | none => simp [hm] at h
+  | some x =>
+    obtain ⟨v', pd⟩ := x
+    obtain ⟨hx, hmax⟩ := maxByKey_some hm
+    rw [mem_common] at hx
+    simp only [hm] at h
+    cases hl : lookup ours v' with
+    | none => simp [hl] at h
+    | some od =>
+      simp only [hl] at h
+      split at h
+      · rename_i hmag
+        injection h with h1
+        subst h1
+        refine ⟨⟨od, pd, lookup_some hl, hx.1, hmag⟩, ?_⟩
+        intro w hwo hwp
+        obtain ⟨p, hp, rfl⟩ := List.mem_map.mp hwp
+        exact hmax p (mem_common.mpr ⟨hp, hwo⟩)
+      · cases h
+
+omit [DecidableEq D] in
+/-- stack 2 answers with a version mismatch only when the version sets are disjoint -/
+theorem mismatch_only_if_disjoint2 (magic : D → Nat) (ours proposed : Table D) (vs : List Nat)
+    (h : negotiate2 magic ours proposed = .versionMismatch vs) : ∀ w ∈ keys ours, w ∉ keys proposed := by
+  unfold negotiate2 at h
+  cases hm : maxByKey (common ours proposed) with
+  | some x =>
+    obtain ⟨v', pd⟩ := x
+    simp only [hm] at h
+    cases hl : lookup ours v' with
+    | none => simp [hl] at h
+    | some od => simp only [hl] at h; split at h <;> cases h
+  | none =>
+    have hnil := maxByKey_none hm
+    intro w hwo hwp
+    obtain ⟨p, hp, rfl⟩ := List.mem_map.mp hwp
+    have : p ∈ common ours proposed := mem_common.mpr ⟨hp, hwo⟩
+    simp [hnil] at this
 
 omit [DecidableEq D] in
 /-- **disjoint_refuses (stack 2)**: disjoint version sets are refused with a version mismatch listing our versions. -/
